@@ -424,6 +424,9 @@ pub fn flush_counts<W: WorldOps>(e: &mut Engine<W>, pc: &ProbeCounts) {
     for (k, v) in pc.directs_by_source.iter() {
         e.rep.add(&format!("direct_source|{k}"), *v);
     }
+    for (k, v) in pc.directs_seen_by_source.iter() {
+        e.rep.add(&format!("direct_obtained|{k}"), *v);
+    }
     let (made, dropped, cloned) = with_reg(|r| (r.made, r.dropped, r.cloned));
     e.rep.add("registry.tokens_made", made);
     e.rep.add("registry.tokens_cloned", cloned);
